@@ -19,6 +19,9 @@ def c08Op := labelledRenderOp fun k =>
   if k == "ISOLATION" then some "render-changed-the-callers-variables"
   else if k == "ARGS-ONLY" then some "render-output-depends-on-the-caller"
   else if k == "FOR-AS" then some "render-for-iterations-are-not-independent-renders" else none
+/-- `c07r`: a path case labelled by the harness's reference resolution of the path -/
+def c07rOp := labelledRenderOp fun k =>
+  if k == "PATHLAW" then some "a-path-denotes-what-the-statement-says-or-fails" else none
 def c09Op := labelledRenderOp fun k =>
   if k == "LEAK" then some "result-depends-on-history" else if k == "DATA-MODIFIED" then some "caller-data-untouched" else none
 def c19Op := labelledRenderOp fun k =>
